@@ -30,9 +30,9 @@ structure LinearStreams (s : Streams) (p : PackInfo) (fs : List Folder) (ss : Su
 def readBackStreams (p : PackInfo) (fs : List Folder) (ss : SubStreams) (sizes : List Nat) : Streams :=
   { packinfo := some (readBackPack p), folders := some (fs.map readBackFolder), substreams := some (readBackSub ss sizes) }
 
-theorem impl_reads_streams (s : Streams) (p : PackInfo) (fs : List Folder) (ss : SubStreams) (sizes : List Nat)
-    (wf : LinearStreams s p fs ss sizes) (bytes rest : Bytes) (hw : writeStreams s = some bytes) :
-    readStreams (bytes.drop 1 ++ rest) = .ok (readBackStreams p fs ss sizes, rest) := by
+theorem impl_reads_streams (total : Nat) (s : Streams) (p : PackInfo) (fs : List Folder) (ss : SubStreams) (sizes : List Nat)
+    (wf : LinearStreams s p fs ss sizes) (hcount : ss.numUnpack.sum ≤ total * 8) (bytes rest : Bytes) (hw : writeStreams s = some bytes) :
+    readStreams total (bytes.drop 1 ++ rest) = .ok (readBackStreams p fs ss sizes, rest) := by
   unfold writeStreams at hw
   rw [wf.hp, wf.hf, wf.hs] at hw
   cases ha : writePackInfo p with
@@ -52,7 +52,7 @@ theorem impl_reads_streams (s : Streams) (p : PackInfo) (fs : List Folder) (ss :
       have hch := writeSubStreams_head ss c hc hne
       have hpk := fun r => impl_reads_packinfo p a r ha wf.pack
       have hup := fun r => impl_reads_unpackinfo fs wf.nfolders wf.folders r
-      have hsb := fun r => impl_reads_substreams ss (fs.map readBackFolder) c r hc hne (by simpa using wf.nlen)
+      have hsb := fun r => impl_reads_substreams total ss (fs.map readBackFolder) c r hcount hc hne (by simpa using wf.nlen)
         (by intro f hf; simp only [List.mem_map] at hf; obtain ⟨g, _, hg⟩ := hf; rw [← hg]; rfl)
         wf.nums sizes wf.usizes wf.tiles wf.sizesBound wf.ddlen wf.dlen wf.dbound
       have hub : writeUnpackInfo fs = 0x07 :: (writeUnpackInfo fs).drop 1 := by simp [writeUnpackInfo]
@@ -84,7 +84,7 @@ def readBackHeader (p : PackInfo) (fs : List Folder) (ss : SubStreams) (sizes : 
     pairs, counts, digests, names (backslashes rewritten), flags, times and attributes -/
 theorem impl_reads_header (h : Header) (s : Streams) (p : PackInfo) (fs : List Folder) (ss : SubStreams)
     (sizes : List Nat) (fi : FilesInfo) (hs : h.mainStreams = some s) (hfi : h.filesInfo = some fi)
-    (wf : LinearStreams s p fs ss sizes) (rf : ReadableFiles fi) (pos : Nat) (bytes : Bytes)
+    (wf : LinearStreams s p fs ss sizes) (rf : ReadableFiles fi) (hsf : ss.numUnpack.sum ≤ fi.files.length) (pos : Nat) (bytes : Bytes)
     (hw : writeHeaderRaw true h pos = some bytes) :
     readNextHeader bytes = .ok (.raw (readBackHeader p fs ss sizes fi)) := by
   unfold writeHeaderRaw at hw
@@ -105,7 +105,6 @@ theorem impl_reads_header (h : Header) (s : Streams) (p : PackInfo) (fs : List F
         | some c =>
           simp only [ha, hc, bind, Option.bind, pure, Option.some.injEq] at hm
           rw [← hm]; simp
-    have hst := fun r => impl_reads_streams s p fs ss sizes wf ms r hm
     have hlen := writeFilesInfo_length_ge fi (pos + 1 + ms.length) rf.wf.named
     have hfl := fun (total : Nat) (ht : fi.files.length ≤ total * 8) r =>
       impl_reads_filesinfo fi (pos + 1 + ms.length) total r rf ht
@@ -117,6 +116,7 @@ theorem impl_reads_header (h : Header) (s : Streams) (p : PackInfo) (fs : List F
     have htot : fi.files.length ≤ total * 8 := by
       rw [← htotal]; simp only [List.length_cons, List.length_append]; omega
     have hfl' := hfl total htot
+    have hst := fun r => impl_reads_streams total s p fs ss sizes wf (by omega) ms r hm
     unfold readHeaderBody
     generalize (pos + 1 + ms.length) = q at hfl' ⊢
     rw [hmh, writeFilesInfo_head]
@@ -263,7 +263,10 @@ theorem impl_reads_session {σ} (cfg : WConfig σ) (ms : List WMember) (H0 : Hea
         simpa [sessionFiles, nameOf, Function.comp_def] using this
     have hs : H0.mainStreams = some s := by rw [← hH]
     have hfi : H0.filesInfo = some (sessionFiles ms) := by rw [← hH]
-    have hread := impl_reads_header H0 s p [sessionFolder cfg us] ss sizes (sessionFiles ms) hs hfi wf rf pos hdr hW
+    have hread := impl_reads_header H0 s p [sessionFolder cfg us] ss sizes (sessionFiles ms) hs hfi wf rf (by
+      show [(sessionCompress cfg ms).2.length].sum ≤ (sessionFiles ms).files.length
+      have : (dataMembers ms).length ≤ ms.length := List.length_filter_le _ _
+      simp [f1, sessionFiles]; omega) pos hdr hW
     refine ⟨_, hread, ?_, _, _, rfl, rfl, ?_, ?_⟩
     · simp [readBackHeader, sessionFiles, sessionReadBackFiles, readBackFile, nameOf, Function.comp_def]
     · simp [readBackSub, ss, f1]
